@@ -23,6 +23,8 @@ pub struct Level {
     pub after_fail: bool,
     /// also every pair of this level's single edits at once (two things changed between evaluations)
     pub pairs: bool,
+    /// reconsider_all_jobs() among the driver's choices
+    pub reconsider: bool,
 }
 
 #[derive(Clone, Debug)]
@@ -91,8 +93,8 @@ fn tainted_after(w: &World, cfg_flaky: bool) -> bool {
 
 impl<'a> ChainRun<'a> {
     fn opts(&self, lv: &Level, abort: bool, misuse: bool) -> Opts {
-        let _ = lv;
         Opts {
+            reconsider: lv.reconsider,
             abort,
             misuse,
             steps: self.spec.steps,
